@@ -28,9 +28,9 @@ m = {
     "setup_cmd": "./check build",
     "hooks": {
         "guard": "sd_jwt_rs_verif",
-        "enable": "none needed: all seams sit at the OS / dependency boundary of the harness binary (interposed clock_gettime and getrandom symbols, [patch.crates-io] getrandom in /verif/sim only); /repo is compiled unchanged as a path dependency",
+        "enable": "the simulator builds /repo with RUSTFLAGS --cfg sd_jwt_rs_verif (set in /verif/sim/.cargo/config.toml). One hook: in the deterministic-salt build (feature mock_salts) SALTS.lock() first calls a callback (src/verif_hook.rs, sd_jwt_rs::verif_hook::SCHED_POINT) which sdsim-mock installs to make every acquisition of the salt queue's lock a scheduling point (C16, concurrent issuances). All other seams sit at the OS / dependency boundary of the harness binary (interposed clock_gettime, getrandom and syscall symbols, [patch.crates-io] getrandom in /verif/sim only) and need nothing in /repo",
         "baseline_off_cmd": BASELINE_OFF,
-        "source_commits": [],
+        "source_commits": ["5e36c65"],
         "add_only": True,
     },
     "engines": [
